@@ -1,6 +1,7 @@
 //! runtime_probe: the run-time crate `leptos_i18n` (ssr + all formatters) under native workloads.
 #![allow(clippy::all)]
 mod ctx;
+mod fmtstress;
 mod negotiate;
 
 use serde_json::Value;
@@ -10,6 +11,10 @@ fn main() {
     match args.get(1).map(String::as_str) {
         Some("negotiate") => negotiate::serve(),
         Some("ctx") => ctx::serve(),
+        Some("fmt-stress") => {
+            let p: Value = serde_json::from_str(args.get(2).map(String::as_str).unwrap_or("{}")).unwrap();
+            fmtstress::run(&p)
+        }
         Some("negotiate-sweep") => {
             let p: Value = serde_json::from_str(args.get(2).map(String::as_str).unwrap_or("{}")).unwrap();
             negotiate::sweep(&p)
